@@ -70,4 +70,35 @@ def checkMagnitude (classes : List ClassInfo) (e : Entry) : Bool :=
         | _ => false)
    | _, _ => false)
 
+/-- C10: a constructor of a vector quantity from a scalar quantity and a direction (in either
+argument order) stores `scalar × directionᵢ` in slot `i`, one correctly rounded product each, for as
+many components as the direction has. -/
+def checkScaleDir (classes : List ClassInfo) (e : Entry) : Bool :=
+  e.kind != .ctor ||
+  (match e.args with
+   | [.q a, .q b] =>
+     let na := classComps classes a
+     let nb := classComps classes b
+     if classIsDirection classes b && !classIsDirection classes a && na == 1 then
+       classComps classes e.cls == nb && e.argSizes == [1, nb] &&
+       (match e.numOuts with
+        | some outs => outs.length == nb && allIdx outs (fun i ex => isBinOf .mul e.fm 0 (1 + i) ex)
+        | none => false)
+     else if classIsDirection classes a && !classIsDirection classes b && nb == 1 then
+       classComps classes e.cls == na && e.argSizes == [na, 1] &&
+       (match e.numOuts with
+        | some outs => outs.length == na && allIdx outs (fun i ex => isBinOf .mul e.fm i na ex)
+        | none => false)
+     else true
+   | _ => true)
+
+/-- Is the entry a (scalar, direction) constructor covered by `checkScaleDir`? -/
+def Entry.isScaleDirCtor (classes : List ClassInfo) (e : Entry) : Bool :=
+  e.kind == .ctor &&
+  (match e.args with
+   | [.q a, .q b] =>
+     (classIsDirection classes b && !classIsDirection classes a && classComps classes a == 1) ||
+     (classIsDirection classes a && !classIsDirection classes b && classComps classes b == 1)
+   | _ => false)
+
 end PhQVerif
